@@ -26,7 +26,7 @@ INTS = ['int1', 'int2', 'int3', 'außen4']      # (the last: a name on which low
 
 
 def floors(tier):
-    return {'plans_checked': 1500, 'len:positions': 16, 'len:spellings': 3, 'len:catalog_forms': 5, 'metamorphic_pairs': 500, 'model_queries': 200}
+    return {'plans_checked': 1500, 'len:positions': 18, 'len:spellings': 3, 'len:catalog_forms': 5, 'metamorphic_pairs': 500, 'model_queries': 200}
 
 
 def ceilings(tier):
@@ -79,7 +79,8 @@ def build(r, style, kind=None, default_ns=None):
     kind = kind or r.choice(['from', 'join', 'join3', 'where-sub', 'target-sub', 'case-sub', 'func-sub', 'cte', 'insert-select', 'update-from',
                              'delete-sub', 'model', 'model-version', 'model-2tables', 'union', 'where-sub-join', 'target-sub-join',
                              'model-twice', 'model-twice', 'qualified-cols', 'delete-qualified', 'update-qualified', 'model-select',
-                             'model-sub-twice', 'cte-named-like-foreign-table', 'table-named-like-model', 'schema-named-like-integration', 'ts-model-join', 'native-query', 'schema-named-like-integration', 'table-named-like-model'])
+                             'model-sub-twice', 'cte-named-like-foreign-table', 'table-named-like-model', 'schema-named-like-integration', 'ts-model-join', 'native-query', 'schema-named-like-integration', 'table-named-like-model',
+                             'twin-tables', 'unqualified-via-default-namespace'])
     c.positions.add(kind)
     if kind == 'table-named-like-model':
         # a data table whose name is also the name of a model in the catalog (of the default project, or of another project)
@@ -93,6 +94,55 @@ def build(r, style, kind=None, default_ns=None):
             f'INSERT INTO {t2} (c) SELECT a1.c FROM {tz} AS a1',
             f'SELECT a1.c FROM {tz} AS a1 UNION SELECT a2.c FROM {t2} AS a2',
             f'SELECT a1.c, a2.c FROM {t2} AS a2 LEFT JOIN {tz} AS a1 ON a1.k = a2.k']), c
+    if kind == 'twin-tables':
+        # the same table name - and the same query text around it - in two integrations: two tables, two fetches
+        h1, h2 = r.sample(INTS, 2)
+        c.n += 1
+        m_ = f'tb_{c.n:02d}'
+        c.homes[m_] = h1
+        c.twins = {m_: {h1, h2}}
+        q1, q2 = f'{spell(h1, style)}.{m_}', f'{spell(h2, style)}.{m_}'
+        shape = r.randrange(5)
+        if shape == 0:
+            return f'SELECT c FROM {q1} WHERE k > 1 UNION SELECT c FROM {q2} WHERE k > 1', c
+        if shape == 1:
+            return f'SELECT c FROM {q1} UNION ALL SELECT c FROM {q2}', c
+        if shape == 2:
+            return f'SELECT a1.c, (SELECT max(c) FROM {q1}) AS m1, (SELECT max(c) FROM {q2}) AS m2 FROM {c.tbl()} AS a1', c
+        if shape == 3:
+            return f'SELECT a1.c FROM {c.tbl()} AS a1 WHERE a1.k IN (SELECT c FROM {q1}) AND a1.x IN (SELECT c FROM {q2})', c
+        return f'SELECT * FROM {q1} AS a1 JOIN {q2} AS a2 ON a1.k = a2.k', c
+    if kind == 'unqualified-via-default-namespace':
+        # a table written without qualifier: it lives in the default namespace; inside nested selects and joins it is still a table to fetch
+        if default_ns not in INTS:
+            kind = 'where-sub'
+            c.positions.discard('unqualified-via-default-namespace')
+            c.positions.add(kind)
+        else:
+            c.n += 1
+            m_ = f'tb_{c.n:02d}'
+            c.homes[m_] = default_ns
+            # (the join partners may themselves live in the default namespace; the nested table is written bare or with that qualifier)
+            o1 = r.choice(INTS)
+            o2 = r.choice([i for i in INTS if i != o1])
+            if r.random() < 0.4:
+                m_ = f'{spell(default_ns, style)}.{m_}'
+            shape = r.randrange(7)
+            t_o1 = c.tbl(o1)
+            if shape == 5:
+                # (nested select written without alias and with bare column names)
+                return f'SELECT * FROM {t_o1} AS a1 JOIN {c.tbl(o2)} AS a2 ON a1.k = a2.k WHERE a1.x IN (SELECT c FROM {m_})', c
+            if shape == 6:
+                return f'SELECT a1.*, (SELECT max(c) FROM {m_}) AS mx FROM {t_o1} AS a1 JOIN {c.tbl(o2)} AS a2 ON a1.k = a2.k', c
+            if shape == 0:
+                return f'SELECT a1.c FROM {t_o1} AS a1 JOIN {c.tbl(o2)} AS a2 ON a1.k = a2.k WHERE a1.k IN (SELECT s1.c FROM {m_} AS s1)', c
+            if shape == 1:
+                return f'SELECT a1.c, (SELECT max(s1.c) FROM {m_} AS s1) AS mx FROM {t_o1} AS a1 JOIN {c.tbl(o2)} AS a2 ON a1.k = a2.k', c
+            if shape == 2:
+                return f'SELECT a1.c FROM {t_o1} AS a1 JOIN {m_} AS a2 ON a1.k = a2.k', c
+            if shape == 3:
+                return f'SELECT a1.c FROM {m_} AS a1 WHERE a1.k IN (SELECT s1.c FROM {t_o1} AS s1)', c
+            return f'SELECT a1.c FROM {t_o1} AS a1 WHERE EXISTS (SELECT 1 FROM {m_} AS s1 WHERE s1.k = 1)', c
     if kind == 'native-query':
         # a raw query handed to an integration by name: `int1 (select ...)`, alone or as a join member; the marker inside the raw text
         # says where it belongs
@@ -344,6 +394,8 @@ def judge(case, rows, default_ns):
                 if home is None:
                     continue
                 fetched.setdefault(m, set()).add(integ)
+                if integ in getattr(case, 'twins', {}).get(m, ()):
+                    home = integ            # a table of that name lives there too
                 if integ != home:
                     out.append(({'defect': 'table-sent-to-wrong-integration'}, {'marker': m, 'home': home, 'sent_to': integ}))
                 sch = case.schemas.get(m)
@@ -379,6 +431,9 @@ def judge(case, rows, default_ns):
     for m, home in case.homes.items():
         if m not in fetched:
             out.append(({'defect': 'table-never-fetched'}, {'marker': m, 'home': home}))
+    for m, hs in getattr(case, 'twins', {}).items():
+        for h_ in sorted(hs - fetched.get(m, set())):
+            out.append(({'defect': 'table-never-fetched', 'twin': True}, {'marker': m, 'home': h_, 'fetched_from': sorted(fetched.get(m, set()))}))
     preds = [r for r in rows if r[0] == 'predict']
     for p in preds:
         for x in p[2]:
